@@ -13,3 +13,5 @@ def run(ctx):
              ('k_from_f64_normalises', 'from-f64', 'numerically equal spellings meet in one representation: From<f64> maps every integral double of the integer ranges to the integer variant'),
              ('k_integer_eq_exact', 'int-eq-exact', 'integers are equal (and hash alike) exactly when they are the same integer, over all u64 / i64')]
     kani_family(ctx, 'unique.hash_eq', 'Hash agrees with Eq on keys (the HashSet abstraction of unique.step is sound)', specs, ['json_value.rs'], timeout_s=900)
+    from ..conform import conformance
+    conformance(ctx, ['pipeline'])      # the references the obligations are stated against, compared with jawk::go on concrete runs (validates the oracles; never decides)
